@@ -6,7 +6,7 @@ from common import *
 ALL_ACTIONS = ["Encode", "Encrypt", "EncryptZero", "Expand", "Decrypt", "Negate", "Add", "Sub", "Multiply", "Square",
                "Relin", "AddPlain", "SubPlain", "MulPlain", "ToNtt", "FromNtt", "PlainToNtt", "ModSwitchNext",
                "ModSwitchTo", "RescaleNext", "RescaleTo", "ModSwitchPlainNext", "ModSwitchPlainTo", "Galois",
-               "Rotate", "Conj", "Corrupt", "EncryptOther", "KeySwitch"]   # (AddMany / MultiplyMany only in dedicated instances: 30 operand lists each)
+               "Rotate", "Conj", "Corrupt", "EncryptOther", "KeySwitch", "Reload"]   # (AddMany / MultiplyMany only in dedicated instances: 30 operand lists each)
 
 
 def tla_seq(xs):
